@@ -235,6 +235,45 @@ namespace sim
       }
    }
 
+   // ------------------------------------------------------------ rematch sub-input windows
+   namespace
+   {
+      int g_sub_depth = 0;
+      const char* g_sub_from = nullptr;
+      std::size_t g_sub_len = 0;
+   }  // namespace
+
+   void sub_window_enter( const char* sub_end ) noexcept
+   {
+      if( g_sub_depth++ != 0 || !W.in_library ) {
+         return;  // nested sub-inputs only shrink further; the outermost poisoning stays
+      }
+      const char* hi = nullptr;
+      if( g_buf.base != nullptr && sub_end >= g_buf.base && sub_end <= g_buf.base + g_buf.capacity ) {
+         hi = g_buf.end;
+      }
+      else if( sub_end >= W.arena && sub_end <= W.arena + W.xlen ) {
+         hi = W.arena + ( W.mem_end_off <= W.xlen ? W.mem_end_off : W.xlen );  // a byte limit may have lowered the end
+      }
+      g_sub_from = nullptr;
+      if( hi != nullptr && sub_end < hi ) {
+         g_sub_from = sub_end;
+         g_sub_len = static_cast< std::size_t >( hi - sub_end );
+         SIM_POISON( g_sub_from, g_sub_len );
+      }
+   }
+
+   void sub_window_leave() noexcept
+   {
+      if( --g_sub_depth != 0 ) {
+         return;
+      }
+      if( g_sub_from != nullptr ) {
+         SIM_UNPOISON( g_sub_from, g_sub_len );
+         g_sub_from = nullptr;
+      }
+   }
+
    // ------------------------------------------------------------ reader
    std::size_t sim_read( char* buffer, std::size_t length )
    {
@@ -273,6 +312,7 @@ namespace sim
          SIM_UNPOISON( buffer, n );
          std::memcpy( buffer, W.xdata + W.delivered, n );
          W.delivered += n;
+         g_buf.end = buffer + n;
       }
       log_event( Ev::READ, 0, 0, 0, 0, s, 0, ( std::uint64_t( length ) << 32 ) | n, static_cast< std::uint32_t >( buffer - g_buf.base ) );
       return n;
